@@ -100,17 +100,29 @@ def tbl_blocks(blocks, strand):
 
 def parse_tbl(lines):
     """independent 5-column reader: -> (header, [feature dict(type, intervals[(start,end) strings], quals[(k,v)])])"""
-    header = lines[0]
+    header = lines[0] if lines else ""
     feats = []
     for ln in lines[1:]:
         cols = ln.split("\t")
         if ln.startswith("\t\t\t"):
+            if not feats:
+                raise BadTbl(f"qualifier line before any feature: {ln!r}")
             feats[-1]["quals"].append((cols[3], cols[4] if len(cols) > 4 else ""))
         elif len(cols) >= 3 and cols[2]:
             feats.append(dict(type=cols[2], intervals=[(cols[0], cols[1])], quals=[]))
         else:
+            if not feats or len(cols) < 2:
+                raise BadTbl(f"interval line without a feature / without two columns: {ln!r}")
             feats[-1]["intervals"].append((cols[0], cols[1]))
+    for ft in feats:
+        for a, b in ft["intervals"]:
+            if not (a.lstrip("<>").isdigit() and b.lstrip("<>").isdigit()) or a.startswith(">") or b.startswith("<"):
+                raise BadTbl(f"interval {a!r} {b!r} of a {ft['type']} feature is not '<'start / '>'end with integer coordinates")
     return header, feats
+
+
+class BadTbl(Exception):
+    """the exported text is not a feature table an independent 5-column reader can take in"""
 
 
 def expected(gene, flavor, table):
@@ -235,7 +247,11 @@ def _case(repo, it, S, spec):
     if not lines or lines[0] != ">Features chr1":
         out.append(("header", f"{desc}: first line {lines[:1]}; expected '>Features chr1'", f.qual))
         return 2, out
-    header, feats = parse_tbl(lines)
+    try:
+        header, feats = parse_tbl(lines)
+    except BadTbl as ex:
+        out.append(("feature table syntax", f"{desc}: {ex}", f.qual))
+        return 2, out
     want = []
     for g in chosen:
         want += expected(g, flavor, table)
@@ -357,7 +373,10 @@ def _mixed_strand_case(repo, it, S, spec):
         d_ = [(a, b) for a, b in zip(t1, t2) if a != b][:1] if k2 == "ok" else t2
         out.append(("reproducible for a fixed seed [mixed-strand gene]", f"{desc}: exported again with every set iterated in the opposite order the file differs: {d_}",
                     f"{W}:GeneTblFeature.__init__"))
-    _h, feats = parse_tbl(t1)
+    try:
+        _h, feats = parse_tbl(t1)
+    except BadTbl as ex:
+        return 2, out + [("feature table syntax", f"{desc}: {ex}", f.qual)]
     gene_rows = [x for x in feats if x["type"] == "gene"]
     if gene_rows:
         a, b = gene_rows[0]["intervals"][0]
